@@ -154,6 +154,10 @@ structure HubSt where
   pending : Int := 0
   cancelled : Nat := 0
   next : Nat := 0
+  /-- Balance only (fix 61853f2): elements waiting for a slot with demand -/
+  buf : List Val := []
+  /-- Balance only: upstream completed while `buf` was not empty -/
+  upDone : Bool := false
   alive : Bool := true
   deriving Repr, Inhabited
 
@@ -196,11 +200,35 @@ def chooseSlot (s : HubSt) : Option Nat :=
 
 def decr (l : List Int) (i : Nat) : List Int := l.modify i (· - 1)
 
+/-- Balance `drain`: route buffered elements, oldest first, while some live slot has demand (fuel = buffer length) -/
+def drain : Nat → HubSt → HubSt × List (Nat × Down)
+  | 0, s => (s, [])
+  | f + 1, s =>
+    match s.buf with
+    | [] => (s, [])
+    | v :: rest =>
+      match chooseSlot s with
+      | none => (s, [])
+      | some c =>
+        let r := drain f { s with buf := rest, demand := decr s.demand c, next := (c + 1) % s.n }
+        (r.1, (c, Down.elem v) :: r.2)
+
+def HubSt.drain (s : HubSt) : HubSt × List (Nat × Down) := GoaktVerif.Model.C46.drain s.buf.length s
+
 def hubStep (k : HubKind) (s : HubSt) : HEv → HubSt × HOut
   | .wire => (s, { ready := true })
   | .slotDemand slot n =>
-    let r := ({ s with demand := s.demand.modify slot (· + n) }).maybePull k
-    (r.1, { up := r.2 })
+    let s0 := { s with demand := s.demand.modify slot (· + n) }
+    if k = .balance then
+      let d := s0.drain
+      if d.1.upDone && d.1.buf.isEmpty then
+        ({ d.1 with alive := false }, { toSlots := d.2 ++ (liveSlots d.1).map fun i => (i, Down.complete) })
+      else
+        let r := d.1.maybePull k
+        (r.1, { toSlots := d.2, up := r.2 })
+    else
+      let r := s0.maybePull k
+      (r.1, { up := r.2 })
   | .elem v =>
     let s0 := { s with pending := s.pending - 1 }
     match k with
@@ -210,15 +238,10 @@ def hubStep (k : HubKind) (s : HubSt) : HEv → HubSt × HOut
       let r := s1.maybePull k
       (r.1, { toSlots := ls.map fun i => (i, Down.elem v), up := r.2 })
     | .balance =>
-      match chooseSlot s0 with
-      | some c =>
-        let s1 := { s0 with demand := decr s0.demand c, next := (c + 1) % s0.n }
-        let r := s1.maybePull k
-        (r.1, { toSlots := [(c, .elem v)], up := r.2 })
-      | none =>
-        -- no slot has demand: the element is not sent to anyone (finding C46-F1)
-        let r := s0.maybePull k
-        (r.1, { up := r.2 })
+      -- an element that finds no demand waits in `buf` (before fix 61853f2 it was dropped)
+      let d := ({ s0 with buf := s0.buf ++ [v] }).drain
+      let r := d.1.maybePull k
+      (r.1, { toSlots := d.2, up := r.2 })
     | .partition m =>
       let slot := match v with | .int x => (x.emod m).toNat | _ => s0.n
       if slot < s0.n && s0.live.getD slot false then
@@ -228,7 +251,9 @@ def hubStep (k : HubKind) (s : HubSt) : HEv → HubSt × HOut
       else
         let r := s0.maybePull k
         (r.1, { up := r.2 })
-  | .complete => ({ s with alive := false }, { toSlots := (liveSlots s).map fun i => (i, Down.complete) })
+  | .complete =>
+    if k = .balance && !s.buf.isEmpty then ({ s with upDone := true }, {})
+    else ({ s with alive := false }, { toSlots := (liveSlots s).map fun i => (i, Down.complete) })
   | .error e => ({ s with alive := false }, { toSlots := (liveSlots s).map fun i => (i, Down.error e) })
   | .slotCancel slot =>
     let s0 := { s with live := s.live.set slot false, cancelled := s.cancelled + 1 }
